@@ -3,7 +3,7 @@
 (* [fn, args, ctx] of a mirrored function with well-formed arguments drawn   *)
 (* from the function's parameter domains: ALL argument tuples when the       *)
 (* domains are small enough (K >= |domain|), otherwise a pseudo-random       *)
-(* subset (TLC -seed = VERIF_SEED).  Only INPUTS (and the static signature   *)
+(* subset (TLC -seed = VERIF_SEED) plus the domain's boundary values Must.  Only INPUTS (and the static signature   *)
 (* the harness needs to print results) are emitted; the expected results     *)
 (* stay in TLC and are applied by RuntimeFuncs_Trace to the logged outputs.  *)
 (* ctx = how the harness writes the call: arguments as literals or through   *)
@@ -15,7 +15,7 @@ CONSTANTS Fns,                \* names of the functions to generate for ({} = al
           K1, K2, K3, K4      \* per-parameter sample size for functions of 1, 2, 3, 4 parameters
 VARIABLE c
 
-Pick(d, k) == LET D == Dom(d) IN IF Cardinality(D) <= k THEN D ELSE RandomSubset(k, D)
+Pick(d, k) == LET D == Dom(d) IN IF Cardinality(D) <= k THEN D ELSE Must(d) \cup RandomSubset(k, D)
 Ctxs == [arg : {"lit", "var"}, res : {"asg", "dir"}, mode : {"strict", "relaxed", "dynamic"}, opt : {0, 1, 2}]
 Case(r, a) == [fn |-> r.fn, args |-> a, ret |-> r.ret, sh |-> r.sh, go |-> r.go, ctx |-> RandomElement(Ctxs)]
 
